@@ -44,7 +44,8 @@ func serveMain(args []string) int {
 	case "aof-always":
 		// Every acknowledgement is made visible to the tracer as a one-byte write to ack.marker.
 		clk := NewVClock()
-		run, err := newPRunner(args[1], "always", false, false, clk)
+		// the policy name is spelled in a different letter case from run to run (it is case-insensitive)
+		run, err := newPRunner(args[1], spellPolicy("always", os.Getpid()), false, false, clk)
 		if err != nil {
 			fmt.Fprintln(os.Stderr, err)
 			return 2
